@@ -96,3 +96,36 @@ func VH_C11_PECertTableWalk() {
 		vhReach("rejected") // vh:require rejected
 	}
 }
+
+// H11.pe (verifier entry): VerifyPE / the is-signed probe on an arbitrary PE
+// header: the certificate table named by data directory 4 (address and size
+// symbolic) is read without allocating by the size field and without panic;
+// the CMS parser behind it is a stub.
+func VH_C11_PEVerifyEntry() {
+	// vh:stubbed
+	// a fixed minimal PE32 header (no sections); only data directory 4 - the
+	// certificate table's address and size - and the bytes after the header
+	// are symbolic
+	n := 64 + 24 + 224 + 3
+	vhMaxLen(n + 2)
+	b := make([]byte, n)
+	b[0], b[1], b[0x3c] = 'M', 'Z', 64
+	copy(b[64:], []byte{'P', 'E', 0, 0})
+	b[64+4+16] = 224
+	b[64+24], b[64+24+1] = 0x0b, 0x01
+	copy(b[64+24+92:], []byte{16, 0, 0, 0})
+	copy(b[64+24+128:], vhBytes("certificate-table-entry", 8))
+	copy(b[64+24+224:], vhBytes("after-the-header", 3))
+	vhAllocLimit(4<<20 + 16*len(b))
+	vhLoopBound(len(b) + 16)
+	vhStub("github.com/sassoftware/relic/v8/lib/authenticode.checkSignature", func(der []byte) (*PESignature, error) {
+		return nil, errStop
+	})
+	sigs, err := VerifyPE(bytes.NewReader(b), true)
+	if err == nil {
+		vhReach("accepted")
+		vhAssert(len(sigs) > 0, "accepted-means-signatures")
+	} else {
+		vhReach("rejected") // vh:require rejected
+	}
+}
